@@ -221,14 +221,21 @@ class BaseSection(base.Sectionable):
         new_section = None
         if term is not None:
             if path is not None:
-                new_section = term.get_section_by_path(path)
+                try:
+                    new_section = term.get_section_by_path(path)
+                except ValueError:
+                    new_section = None
+                if not isinstance(new_section, BaseSection):
+                    # Paths like "." lead to the Document itself.
+                    new_section = None
             elif term.sections:
                 new_section = term.sections[0]
 
         if new_section is None:
             # The included file could not be fetched or parsed, or it contains
-            # no Section that could be included: keep the reference unresolved
-            # so nested loading does not break.
+            # no Section that could be included (none at all, or none at the
+            # given path): keep the reference unresolved so nested loading
+            # does not break.
             self._include = new_value
             return
 
